@@ -84,10 +84,10 @@ const MAX_OPS: usize = 40;
 
 fn op_strategy() -> impl Strategy<Value = Op> {
     prop_oneof![
-        30 => Just(Op::Tick),
+        60 => Just(Op::Tick),
         5 => (0u8..=2, prop_oneof![Just(0u8), Just(20u8), Just(45u8)])
             .prop_map(|(immutables, blocks)| Op::ChainUp { immutables, blocks }),
-        3 => (1u8..=9).prop_map(Op::AggDown),
+        3 => (1u8..=6).prop_map(Op::AggDown),
         2 => (1u8..=3).prop_map(Op::StaleEpochSettings),
         2 => (1u8..=3).prop_map(Op::RoundClosed),
         4 => (1u8..(1 << OTHERS)).prop_map(Op::OthersRegister),
@@ -97,18 +97,20 @@ fn op_strategy() -> impl Strategy<Value = Op> {
 }
 
 fn case_strategy() -> impl Strategy<Value = Case> {
-    (1u8..=5, any::<u8>(), prop::collection::vec(prop::collection::vec(op_strategy(), 2..=9), 3..=6)).prop_map(
-        |(start_epoch, salt, mut epochs)| {
-            // bound the history to MAX_OPS ops (epoch changes included)
-            let mut budget = MAX_OPS;
-            for ops in epochs.iter_mut() {
-                budget = budget.saturating_sub(1);
-                ops.truncate(budget.max(1));
-                budget = budget.saturating_sub(ops.len());
-            }
-            Case { start_epoch, salt, epochs }
-        },
-    )
+    // 3..6 epochs; the history (ops + epoch changes) is bounded by MAX_OPS by construction
+    (3usize..=6)
+        .prop_flat_map(|n_epochs| {
+            let max_len = (MAX_OPS - (n_epochs - 1)) / n_epochs;
+            // in a "calm" epoch the scripted aggregator faults are replaced by cycles (armed faults pile up at the
+            // next epoch change otherwise and few histories get deep into the signing epochs)
+            let epoch = (prop::bool::weighted(0.5), prop::collection::vec(op_strategy(), 3..=max_len)).prop_map(
+                |(calm, ops)| {
+                    if calm { ops.into_iter().map(|o| if o.is_fault() { Op::Tick } else { o }).collect() } else { ops }
+                },
+            );
+            (1u8..=5, any::<u8>(), prop::collection::vec(epoch, n_epochs))
+        })
+        .prop_map(|(start_epoch, salt, epochs)| Case { start_epoch, salt, epochs })
 }
 
 // ------------------------------------------------------------------------------------------------ fixtures
@@ -157,8 +159,31 @@ fn stakes_for_epoch(salt: u8, epoch: u64) -> Vec<SignerWithStake> {
 
 // ------------------------------------------------------------------------------------------------ execution
 
+#[derive(Debug, Clone, Copy, PartialEq)]
+enum StepKind {
+    Tick,
+    /// does not touch the signer nor the current epoch's beacons (other signers registering)
+    Neutral,
+    /// new beacons, scripted fault, restart, epoch change
+    Disturbance,
+}
+
+#[derive(Debug, Clone)]
+struct StepRec {
+    step: u32,
+    epoch: u64,
+    kind: StepKind,
+    /// signer state after the step (name, epoch held by the state)
+    state: String,
+    state_epoch: Option<u64>,
+    /// a scripted fault is still armed after the step
+    fault_armed: bool,
+    immutable: u64,
+}
+
 #[derive(Default, Debug)]
 struct RunInfo {
+    trace: Vec<StepRec>,
     /// epochs the history went through (first..=last), including the epilogue
     first_epoch: u64,
     last_generated_epoch: u64,
@@ -183,6 +208,7 @@ struct World {
     info: RunInfo,
     salt: u8,
     step: u32,
+    crashed_in_step: bool,
 }
 
 impl World {
@@ -219,6 +245,7 @@ impl World {
             Err(e) if e.is_critical() => {
                 // production: the process exits and is restarted by its supervisor
                 self.info.critical_errors.push(format!("step {}: {e:?}", self.step));
+                self.crashed_in_step = true;
                 self.restart().await;
                 return;
             }
@@ -231,13 +258,44 @@ impl World {
     async fn epoch_up(&mut self) -> u64 {
         let e = self.env.epoch_up().await;
         self.set_epoch_stakes(e).await;
+        self.record(StepKind::Disturbance).await;
         e
+    }
+
+    async fn record(&mut self, kind: StepKind) {
+        let (state, state_epoch) = match &self.signer {
+            Some(s) => {
+                let st = s.state_machine.get_state().await;
+                (state_name(&st), state_epoch(&st))
+            }
+            None => ("-".to_string(), None),
+        };
+        let (epoch, fault_armed) = {
+            let a = self.env.agg.state.lock().unwrap();
+            (a.epoch, a.down_left + a.stale_left + a.round_closed_left + a.publish_fail_left > 0)
+        };
+        self.info.trace.push(StepRec {
+            step: self.step,
+            epoch,
+            kind,
+            state,
+            state_epoch,
+            fault_armed,
+            immutable: self.env.immutable_number,
+        });
     }
 
     async fn apply(&mut self, op: &Op) {
         self.next_step();
         let t0 = std::time::Instant::now();
         self.apply_inner(op).await;
+        let kind = match op {
+            Op::Tick if std::mem::take(&mut self.crashed_in_step) => StepKind::Disturbance,
+            Op::Tick => StepKind::Tick,
+            Op::OthersRegister(_) => StepKind::Neutral,
+            _ => StepKind::Disturbance,
+        };
+        self.record(kind).await;
         if std::env::var_os("C20_TRACE").is_some() {
             let st = match &self.signer {
                 Some(s) => state_name(&s.state_machine.get_state().await),
@@ -278,6 +336,15 @@ fn state_name(s: &SignerState) -> String {
     }
 }
 
+fn state_epoch(s: &SignerState) -> Option<u64> {
+    match s {
+        SignerState::Init => None,
+        SignerState::Unregistered { epoch }
+        | SignerState::ReadyToSign { epoch }
+        | SignerState::RegisteredNotAbleToSign { epoch } => Some(epoch.0),
+    }
+}
+
 fn sut_registered_during(st: &AggState, epoch: i64) -> bool {
     st.registered_during(epoch).iter().any(|r| r.from_sut)
 }
@@ -292,7 +359,7 @@ fn execute(case: &Case) -> Result<(AggState, RunInfo), String> {
         let env = Env::new(scratch.path(), &fx.signers[0], start_epoch, case.salt, &fx.sut_kes_dir)
             .await
             .map_err(|e| format!("env: {e:?}"))?;
-        let mut w = World { env, signer: None, info: RunInfo::default(), salt: case.salt, step: 0 };
+        let mut w = World { env, signer: None, info: RunInfo::default(), salt: case.salt, step: 0, crashed_in_step: false };
         w.info.first_epoch = start_epoch;
         w.set_epoch_stakes(start_epoch).await;
         w.signer = Some(w.env.start_signer().await.map_err(|e| format!("start: {e:?}"))?);
@@ -421,6 +488,16 @@ fn judge(st: &AggState, info: &RunInfo) -> Verdict {
     }
 
     // --- signatures
+    // per signing epoch: what an aggregator derives (signer set with stakes, parameters, expected seed parts)
+    struct EpochModel {
+        signers: Vec<SignerWithStake>,
+        params: ProtocolParameters,
+        builder: Result<SignerBuilder, String>,
+        next_params: ProtocolParameters,
+        next_signers_len: usize,
+        next_avk: Result<String, String>,
+    }
+    let mut models: BTreeMap<u64, EpochModel> = BTreeMap::new();
     let mut acked: BTreeMap<String, Vec<u32>> = BTreeMap::new();
     for r in &st.sig_requests {
         let e = r.receipt_epoch;
@@ -460,12 +537,20 @@ fn judge(st: &AggState, info: &RunInfo) -> Verdict {
         };
 
         // (b) acceptance by an aggregator that derived its signer set from the acknowledged registrations
-        let signers = st.signers_for_signing_epoch(e);
-        let params = st.params_for_signing_epoch(e).expect("e >= 2 here");
-        let sb = match SignerBuilder::new(&signers, &params) {
+        let model = models.entry(e).or_insert_with(|| {
+            let signers = st.signers_for_signing_epoch(e);
+            let params = st.params_for_signing_epoch(e).expect("e >= 2 here");
+            let builder = SignerBuilder::new(&signers, &params).map_err(|err| format!("{err:?}"));
+            let next_signers = st.signers_for_signing_epoch(e + 1);
+            let next_params = st.params_for_signing_epoch(e + 1).unwrap();
+            let next_avk = encode_avk(&next_signers, &next_params);
+            EpochModel { signers, params, builder, next_params, next_signers_len: next_signers.len(), next_avk }
+        });
+        let (signers, params, next_params) = (&model.signers, &model.params, &model.next_params);
+        let sb = match &model.builder {
             Ok(sb) => sb,
             Err(err) => {
-                v.violations.push(("harness-model".into(), format!("{ctx}: model cannot build the signer set: {err:?}")));
+                v.violations.push(("harness-model".into(), format!("{ctx}: model cannot build the signer set: {err}")));
                 continue;
             }
         };
@@ -492,8 +577,6 @@ fn judge(st: &AggState, info: &RunInfo) -> Verdict {
             ));
         }
         // seed of the protocol message as the aggregator computes it for epoch e
-        let next_signers = st.signers_for_signing_epoch(e + 1);
-        let next_params = st.params_for_signing_epoch(e + 1).unwrap();
         let expect_epoch = e.to_string();
         if pm.get_message_part(&ProtocolMessagePartKey::CurrentEpoch) != Some(&expect_epoch) {
             v.violations.push((
@@ -507,15 +590,15 @@ fn judge(st: &AggState, info: &RunInfo) -> Verdict {
                 format!("{ctx}: next_protocol_parameters part differs from the hash of {next_params:?}"),
             ));
         }
-        match encode_avk(&next_signers, &next_params) {
+        match &model.next_avk {
             Ok(avk) => {
-                if pm.get_message_part(&ProtocolMessagePartKey::NextAggregateVerificationKey) != Some(&avk) {
+                if pm.get_message_part(&ProtocolMessagePartKey::NextAggregateVerificationKey) != Some(avk) {
                     v.violations.push((
                         "b-message-next-avk".into(),
                         format!(
                             "{ctx}: next_aggregate_verification_key part differs from the key derived from the {} \
                              registrations acknowledged during epoch {}",
-                            next_signers.len(),
+                            model.next_signers_len,
                             e - 1
                         ),
                     ));
@@ -563,6 +646,80 @@ fn judge(st: &AggState, info: &RunInfo) -> Verdict {
                 "a-duplicate-acknowledged-publication".into(),
                 format!("{k} acknowledged {} times (steps {:?})", steps.len(), steps),
             ));
+        }
+    }
+
+    // (d') bounded progress inside the history: from any point at which no scripted fault is armed, in an epoch
+    // for which the signer's registrations were acknowledged (during e-2: signing key, during e-1: next
+    // initializer), after enough undisturbed cycles the current CardanoDatabase beacon (third in the signing
+    // order MithrilStakeDistribution, CardanoStakeDistribution, CardanoDatabase) has been acknowledged.
+    let cdb_acked_step = |e: u64, imm: u64| -> Option<u32> {
+        let want = format!("{:?}", SignedEntityType::CardanoDatabase(mithril_common::entities::CardanoDbBeacon::new(e, imm)));
+        st.sig_requests
+            .iter()
+            .filter(|r| r.status == 201)
+            .filter(|r| {
+                r.message.as_ref().is_some_and(
+                    |m| matches!(&m.signed_entity_type, SignedEntityTypeMessage::Known(t) if format!("{t:?}") == want),
+                )
+            })
+            .map(|r| r.step)
+            .min()
+    };
+    let mut stalled_reported = false;
+    for (i, start) in info.trace.iter().enumerate() {
+        if stalled_reported || start.fault_armed || start.state == "-" {
+            continue;
+        }
+        let e = start.epoch;
+        if !(sut_registered_during(st, e as i64 - 2) && sut_registered_during(st, e as i64 - 1)) {
+            continue;
+        }
+        // cycles needed to be in ReadyToSign{e} from the observed state, then 3 beacons
+        let to_ready = match (start.state.as_str(), start.state_epoch) {
+            ("Init", _) => 2,
+            ("Unregistered", Some(se)) if se == e => 1,
+            ("ReadyToSign", Some(se)) | ("RegisteredNotAbleToSign", Some(se)) if se == e => 0,
+            _ => 2, // a state of a previous epoch: -> Unregistered{e} -> registered
+        };
+        let need = to_ready + 3;
+        let mut ticks = 0;
+        for rec in &info.trace[i + 1..] {
+            match rec.kind {
+                StepKind::Disturbance => break,
+                StepKind::Neutral => continue,
+                StepKind::Tick => ticks += 1,
+            }
+            if ticks >= need {
+                let ok = cdb_acked_step(e, start.immutable).is_some_and(|s| s <= rec.step);
+                if ok {
+                    if rec.step < info.epilogue_first_step {
+                        v.labels.push("progress-window-in-generated-history".into());
+                        if start.state == "Init" {
+                            v.labels.push("progress-window-from-restart-in-generated-history".into());
+                        }
+                    }
+                } else {
+                    stalled_reported = true;
+                    v.violations.push((
+                        "d-stalled".into(),
+                        format!(
+                            "epoch {e}: registrations of the signer acknowledged during epochs {} and {}, no fault \
+                             armed after step {} (state {} {:?}), {ticks} undisturbed cycles until step {}: the beacon \
+                             CardanoDatabase({e},{}) was not acknowledged (state now {})",
+                            e - 2,
+                            e - 1,
+                            start.step,
+                            start.state,
+                            start.state_epoch,
+                            rec.step,
+                            start.immutable,
+                            rec.state
+                        ),
+                    ));
+                }
+                break;
+            }
         }
     }
 
@@ -623,7 +780,9 @@ fn case_fn(case: &Case) -> Report {
     }
     let exec_s = t_exec.elapsed().as_secs_f64();
     let t_judge = std::time::Instant::now();
-    let verdict = judge(&st, &info);
+    let mut verdict = judge(&st, &info);
+    verdict.labels.sort();
+    verdict.labels.dedup();
     if std::env::var_os("C20_TIMING").is_some() {
         eprintln!(
             "case: execute {:.2}s judge {:.2}s steps {} sigs {}",
@@ -744,7 +903,7 @@ fn canonical_cases() -> Vec<Case> {
                     let mut ops = vec![OthersRegister(1 + (i + salt) % 7)];
                     ops.extend(t(3));
                     ops.push(Restart);
-                    ops.extend(t(4));
+                    ops.extend(t(6));
                     ops.push(ChainUp { immutables: 2, blocks: 20 });
                     ops.push(PublishFail(1 + i % 3));
                     ops.extend(t(4));
@@ -805,6 +964,8 @@ pub fn run(args: &Args) -> i32 {
         .require_label("fault-hit:publish-fail")
         .require_label("publish-retry-same-cycle-acked")
         .require_label("publish-retry-later-cycle-acked")
+        .require_label("progress-window-in-generated-history")
+        .require_label("progress-window-from-restart-in-generated-history")
         .require_label("restart-in-ReadyToSign")
         .require_label("restart-in-Unregistered")
         .require_label("epoch-without-registration")
@@ -818,6 +979,6 @@ pub fn run(args: &Args) -> i32 {
     let _ = fixture();
     let t = check.tier;
     check.enumerate("canonical", canonical_cases().into_iter(), false, case_fn);
-    check.section("histories", case_strategy, t.pick(400, 12_000), case_fn);
+    check.section("histories", case_strategy, t.pick(600, 20_000), case_fn);
     check.finish()
 }
